@@ -684,6 +684,30 @@ pub fn default_tls_server_config(
     Ok(config)
 }
 
+/// Verification hook, compiled only with `--cfg hickory_dns_verif`: drives the server's
+/// pre-catalog request gate (`ServerContext::handle_raw_request`) in-process, without sockets.
+#[cfg(hickory_dns_verif)]
+pub async fn verif_handle_raw_request<T: RequestHandler>(
+    handler: T,
+    denied_networks: impl IntoIterator<Item = IpNet>,
+    allowed_networks: impl IntoIterator<Item = IpNet>,
+    message: SerialMessage,
+    protocol: Protocol,
+    response_handler: BufDnsStreamHandle,
+) {
+    let mut access = AccessControl::default();
+    access.insert_deny(denied_networks);
+    access.insert_allow(allowed_networks);
+    let context = ServerContext {
+        handler,
+        access,
+        shutdown: CancellationToken::new(),
+    };
+    context
+        .handle_raw_request(message, protocol, response_handler)
+        .await
+}
+
 struct ServerContext<T> {
     handler: T,
     access: AccessControl,
